@@ -16,12 +16,22 @@ import (
 	"verif/engine/gosym"
 )
 
-const (
-	repoDir    = "/repo"
+// The registered commands run against /repo and write under /verif. For regression runs of the machinery itself
+// (seeded changes applied to a scratch copy) VERIF_REPO names another checkout and VERIF_OUT another output root.
+var (
+	repoDir    = envOr("VERIF_REPO", "/repo")
 	verifDir   = "/verif"
+	outDir     = envOr("VERIF_OUT", "/verif")
 	harnessDir = "/verif/harness"
-	workDir    = "/verif/.work"
+	workDir    = filepath.Join(envOr("VERIF_OUT", "/verif"), ".work")
 )
+
+func envOr(name, def string) string {
+	if v := os.Getenv(name); v != "" {
+		return v
+	}
+	return def
+}
 
 type HarnessSpec struct {
 	Pkg    string // relative to module, e.g. homescript/lexer
@@ -164,7 +174,7 @@ func runCmd(args []string) {
 	}
 
 	// replay gate
-	os.MkdirAll(filepath.Join(verifDir, "replay", spec.ID), 0o755)
+	os.MkdirAll(filepath.Join(outDir, "replay", spec.ID), 0o755)
 	var all []*gosym.Violation
 	for _, hr := range results {
 		var sigs []string
@@ -185,7 +195,7 @@ func runCmd(args []string) {
 			}
 			v.SchedDependent = hr.Spec.Opts.Sched || hr.Spec.Opts.MapOrder // needs an interleaving or a map iteration order: repeated native runs
 			h := sha1.Sum([]byte(s))
-			v.ReplayFile = filepath.Join(verifDir, "replay", spec.ID, fmt.Sprintf("%s-%x.json", v.Harness, h[:6]))
+			v.ReplayFile = filepath.Join(outDir, "replay", spec.ID, fmt.Sprintf("%s-%x.json", v.Harness, h[:6]))
 			rf := map[string]interface{}{"property": spec.ID, "pkg": hr.Spec.Pkg, "harness": v.Harness, "kind": v.Kind, "label": v.Label, "msg": v.Msg, "tags": v.Tags, "vals": v.Vals, "params": hr.Params, "sig": v.Sig}
 			b, _ := json.MarshalIndent(rf, "", " ")
 			os.WriteFile(v.ReplayFile, b, 0o644)
@@ -347,8 +357,8 @@ func writeEvidence(spec *PropSpec, tier string, seed int, rs []hresPub, viols []
 		"wall_s": wall, "violations": nViol,
 	}
 	b, _ := json.MarshalIndent(ev, "", " ")
-	os.MkdirAll(filepath.Join(verifDir, "evidence"), 0o755)
-	os.WriteFile(filepath.Join(verifDir, "evidence", spec.ID+".json"), b, 0o644)
+	os.MkdirAll(filepath.Join(outDir, "evidence"), 0o755)
+	os.WriteFile(filepath.Join(outDir, "evidence", spec.ID+".json"), b, 0o644)
 }
 
 // ---- native replay ----
